@@ -236,7 +236,7 @@ func (e *Engine) initNode(root types.Type, leafIdx int) *MemNode {
 		if lf.Kind == lkPtrMeta && lf.Ptee != nil {
 			n.constPtee = e.placeForPointee(lf.Ptee)
 		} else {
-			n.uf = e.C.DeclFunc("H_"+k, []smt.Sort{bv64, bv64}, lf.Sort)
+			n.uf = e.C.DeclFuncInitial("H_"+k, []smt.Sort{bv64, bv64}, lf.Sort)
 		}
 		m = e.M.node(n)
 		e.initMem[k] = m
